@@ -172,6 +172,9 @@ pub fn setup(scn: &Scn) -> World {
     if scn.debris() {
         let t = home.join(".kismet_temp");
         world::plant(&t.join("stale_debris"), b"junk", 0o600, now - 7200 * SEC, now - 7200 * SEC);
+        // (several dead writers: what happens to one piece of debris is no business of the others)
+        world::plant(&t.join("stale_debris_b"), b"junk", 0o600, now - 7300 * SEC, now - 7300 * SEC);
+        world::plant(&t.join("stale_debris_c"), b"junk", 0o600, now - 9000 * SEC, now - 9000 * SEC);
         world::plant(&t.join("fresh_debris"), b"junk", 0o600, now - 60 * SEC, now - 60 * SEC);
         // the directory itself has been idle for two hours (nothing created in or removed from it since): the file
         // a minute old was created long ago and is still being written
@@ -337,6 +340,24 @@ pub fn followup_violations(w: &World, check_reclaim: bool) -> Vec<(String, Strin
     let s2 = w.snapshot();
     for (sig, msg) in tree_violations(w, &s2, &s2) {
         bad.push((format!("after-maintenance-{}", sig), msg));
+    }
+    // "every later operation by any process succeeds with normal semantics": a maintenance that runs after the crash
+    // brings the directory down to its capacity like any other (whatever the dead process had claimed, marked or half
+    // done), before the write that triggered it inserts its one file
+    let dircap = match (w.cfg.writer, w.front) {
+        (Some((_, c)), Front::Plain) => c,
+        (Some((_, c)), Front::Sharded(n)) => c / n.max(1),
+        _ => usize::MAX,
+    };
+    if dircap < 1000 && !r.is_err() && !r.is_panic() {
+        let n = shim::passthrough(|| {
+            std::fs::read_dir(&w.home)
+                .map(|rd| rd.flatten().filter(|e| e.file_type().map(|t| !t.is_dir()).unwrap_or(false) && !e.file_name().to_string_lossy().starts_with('.')).count())
+                .unwrap_or(0)
+        });
+        if n > dircap + 1 {
+            bad.push(("maintenance-ineffective-after-crash".into(), format!("a later write maintained the directory (capacity {}) and it still holds {} entries", dircap, n)));
+        }
     }
     let now = shim::clock_peek_ns() as i128;
     let home_rel = w.home.strip_prefix(&w.sc.root).unwrap().to_string_lossy().into_owned();
@@ -535,6 +556,27 @@ pub fn effect_violations(w: &World, scn: &Scn, res: &Res, before: &Snapshot, tra
         }
         (_, Res::Err(..)) | (_, Res::Panic(_)) => {}
         (op, r) => bad.push(("unexpected-result".into(), format!("{} returned {}", op.label(), r.label()))),
+    }
+    // the sweep of .kismet_temp: when the one call that failed is the unlink of one stale temporary file, the operation
+    // that still reports success has reclaimed the other stale files of that directory as it would have without the fault
+    if !res.is_err() && !res.is_panic() {
+        if let Some(f) = trace.iter().find(|e| e.injected && e.kind == shim::Kind::Unlink && e.path.as_deref().map(|p| p.contains("/.kismet_temp/")).unwrap_or(false)) {
+            let failed = f.path.clone().unwrap_or_default();
+            let dir = Path::new(&failed).parent().map(|p| p.to_path_buf()).unwrap_or_default();
+            let now = shim::clock_peek_ns() as i128;
+            if let Ok(dir_rel) = dir.strip_prefix(&w.sc.root) {
+                let dir_rel = dir_rel.to_string_lossy().into_owned();
+                for (rel, n) in before {
+                    let abs = w.sc.root.join(rel);
+                    if n.kind == 'f' && abs.parent() == Some(dir.as_path()) && rel.starts_with(&dir_rel) && abs.to_string_lossy() != failed && n.meta.mtime < now - 3700 * SEC && world::lstat(&abs).is_some() {
+                        bad.push((
+                            "sweep-stopped-by-one-failure".into(),
+                            format!("the unlink of {} failed; {} (stale as well) was left behind by an operation that reported success", failed.rsplit('/').next().unwrap_or(""), rel),
+                        ));
+                    }
+                }
+            }
+        }
     }
     bad
 }
